@@ -52,6 +52,143 @@ func runC09(c *core.Ctx) {
 	mechanicsRules(c)
 }
 
+// unrollRankingLoop evaluates `for i, c := range <local array literal of constants> { m[c] = f(i) }` for the map update mu:
+// the (key, value) pairs for i = 0 .. len-1, with f folded over constants, +, -, *, << and conversions.
+func unrollRankingLoop(mu *ssa.MapUpdate) ([][2]int64, bool) {
+	var al *ssa.Alloc
+	var index ssa.Value
+	switch x := stripConv(mu.Key).(type) {
+	case *ssa.UnOp: // ranking[i] through the element's address
+		if x.Op != token.MUL {
+			return nil, false
+		}
+		ia, ok := x.X.(*ssa.IndexAddr)
+		if !ok {
+			return nil, false
+		}
+		al, _ = ia.X.(*ssa.Alloc)
+		index = ia.Index
+	case *ssa.Index: // range over the array value: a copy of the literal indexed directly
+		whole, ok := x.X.(*ssa.UnOp)
+		if !ok || whole.Op != token.MUL {
+			return nil, false
+		}
+		al, _ = whole.X.(*ssa.Alloc)
+		index = x.Index
+	}
+	if al == nil {
+		return nil, false
+	}
+	elems := arrayStores(al)
+	if len(elems) == 0 {
+		return nil, false
+	}
+	// the array is only read by index and written by its literal's element stores
+	if al.Referrers() != nil {
+		for _, r := range *al.Referrers() {
+			switch y := r.(type) {
+			case *ssa.IndexAddr, *ssa.DebugRef:
+			case *ssa.UnOp:
+				if y.Op != token.MUL {
+					return nil, false
+				}
+			default:
+				return nil, false
+			}
+		}
+	}
+	pt, ok := al.Type().Underlying().(*types.Pointer)
+	if !ok {
+		return nil, false
+	}
+	arr, ok := pt.Elem().Underlying().(*types.Array)
+	if !ok || int(arr.Len()) != len(elems) {
+		return nil, false
+	}
+	inc, ok := index.(*ssa.BinOp)
+	if !ok || inc.Op != token.ADD {
+		return nil, false
+	}
+	ph, ok := inc.X.(*ssa.Phi)
+	if one, isK := constInt(inc.Y); !ok || !isK || one != 1 || ph.Block().Comment != "rangeindex.loop" {
+		return nil, false
+	}
+	h := ph.Block()
+	for i, pred := range h.Preds {
+		if h.Dominates(pred) {
+			if ph.Edges[i] != ssa.Value(inc) {
+				return nil, false
+			}
+		} else if k, isK := constInt(ph.Edges[i]); !isK || k != -1 {
+			return nil, false
+		}
+	}
+	hif, ok := h.Instrs[len(h.Instrs)-1].(*ssa.If)
+	if !ok {
+		return nil, false
+	}
+	cmp, ok := hif.Cond.(*ssa.BinOp)
+	if !ok || cmp.Op != token.LSS || cmp.X != ssa.Value(inc) {
+		return nil, false
+	}
+	if n, isK := constInt(cmp.Y); !isK || int(n) != len(elems) {
+		return nil, false
+	}
+	// the update happens on every iteration: its block is the loop body entered straight from the header
+	if mu.Block() != h.Succs[0] || len(mu.Block().Preds) != 1 {
+		return nil, false
+	}
+	var fold func(v ssa.Value, i int64, depth int) (int64, bool)
+	fold = func(v ssa.Value, i int64, depth int) (int64, bool) {
+		if depth > 8 {
+			return 0, false
+		}
+		if v == ssa.Value(inc) {
+			return i, true
+		}
+		if k, isK := constInt(v); isK {
+			return k, true
+		}
+		switch x := v.(type) {
+		case *ssa.Convert:
+			return fold(x.X, i, depth+1)
+		case *ssa.BinOp:
+			a, ok1 := fold(x.X, i, depth+1)
+			b, ok2 := fold(x.Y, i, depth+1)
+			if !ok1 || !ok2 {
+				return 0, false
+			}
+			switch x.Op {
+			case token.ADD:
+				return a + b, true
+			case token.SUB:
+				return a - b, true
+			case token.MUL:
+				return a * b, true
+			case token.SHL:
+				if b < 0 || b > 40 {
+					return 0, false
+				}
+				return a << uint(b), true
+			}
+		}
+		return 0, false
+	}
+	var out [][2]int64
+	for i, e := range elems {
+		k, isK := constInt(e)
+		if !isK {
+			return nil, false
+		}
+		v, okV := fold(mu.Value, int64(i), 0)
+		if !okV {
+			return nil, false
+		}
+		out = append(out, [2]int64{k, v})
+	}
+	return out, true
+}
+
 // prioRule reads the table from init.
 func prioRule(c *core.Ctx, global, ctor, typ string) {
 	pkg := c.Prog.Pkg("datacoding")
@@ -113,6 +250,16 @@ func prioRule(c *core.Ctx, global, ctor, typ string) {
 					k, ok1 := constInt(x.Key)
 					v, ok2 := constInt(x.Value)
 					if !ok1 || !ok2 {
+						// the table filled by a loop over a local array literal: for rank, coding := range ranking { table[coding] = f(rank) }
+						if entries, okLoop := unrollRankingLoop(x); okLoop {
+							for _, en := range entries {
+								if _, dup := table[en[0]]; dup {
+									outside = append(outside, fmt.Sprintf("coding %d assigned twice", en[0]))
+								}
+								table[en[0]] = en[1]
+							}
+							continue
+						}
 						outside = append(outside, "non-constant entry in "+funcKey(fn))
 						continue
 					}
